@@ -260,6 +260,16 @@ def setup_repo(setup_ops):
     return root, slots
 
 
+def open_client(root):
+    """A client Butler with its per-client caches warmed the same way in every run (the dataset-type cache and the
+    dimension-group key cache decide whether a later call needs an extra read / block; warm, the step structure of a
+    call does not depend on what the client did before)."""
+    b = fixture.open_repo(root)
+    list(b.registry.queryDatasetTypes(...))
+    b._registry._managers.dimensions.save_dimension_group(b.dimensions.conform(["instrument", "detector"]))
+    return b
+
+
 def final_state(root):
     """What a FRESH Butler sees, canonical (no UUIDs, no paths outside the root, sorted)."""
     b = fixture.open_repo(root, writeable=False)
@@ -361,7 +371,7 @@ def run_scheduled(setup_ops, programs, schedule, keep=False):
     try:
         for i, prog in enumerate(programs):
             c = Client(i, sched)
-            c.butler = fixture.open_repo(root)
+            c.butler = open_client(root)
             clients.append(c)
         for c, prog in zip(clients, programs):
             c.thread = threading.Thread(target=_client_main, args=(c, prog, slots), daemon=True)
@@ -414,7 +424,7 @@ def run_serial(setup_ops, programs, order):
     before the next starts; one Butler per client, opened after the set-up, exactly as in the scheduled run."""
     root, slots = setup_repo(setup_ops)
     try:
-        butlers = [fixture.open_repo(root) for _ in programs]
+        butlers = [open_client(root) for _ in programs]
         owns = [[] for _ in programs]
         pcs = [0] * len(programs)
         outs = [[] for _ in programs]
@@ -432,7 +442,7 @@ def run_free(setup_ops, programs):
     """Unscheduled threads: real SQLite locking decides the interleaving (oracle only)."""
     root, slots = setup_repo(setup_ops)
     try:
-        butlers = [fixture.open_repo(root) for _ in programs]
+        butlers = [open_client(root) for _ in programs]
         outs = [[] for _ in programs]
         barrier = threading.Barrier(len(programs))
 
